@@ -527,6 +527,9 @@ func checkNodeKindTests(p *Prog, l *Ledger, rule string) {
 		}
 		o := ""
 		for _, cs := range css {
+			if cs.Parent() == fn {
+				continue // a helper calling itself
+			}
 			if cs.Common().StaticCallee() != fn {
 				return ""
 			}
